@@ -225,8 +225,22 @@ def arbitrary_cases(draw, tier, size=None):
     m, n = draw(gen.maybe_high_aspect(m, n, one_in=10))
     A = draw(gen.qmat(m, n, patterns=("generic", "generic", "int", "pure_imag", "axis", "sparse", "unit", "zero", "units", "units")))
     kind = draw(st.sampled_from(["plain", "plain", "zero_col", "dup_row", "scaled", "row_dominant", "col_dominant", "banded",
-                                 "banded", "leading_triangle"]))
+                                 "banded", "leading_triangle", "hermitian", "hermitian"]))
     A = A.copy()
+    if kind == "hermitian" and m == n:
+        # exactly Hermitian (indefinite, often with a zero or small diagonal: saddle-point / adjacency type), so that
+        # interchanges are needed and destroy the symmetry of the trailing block
+        A = gen.make_hermitian(A)
+        sub = draw(st.sampled_from(["as_is", "hollow", "saddle", "small_diagonal"]))
+        for i in range(n):
+            if sub == "hollow" or (sub == "saddle" and i >= (n + 1) // 2):
+                A[i, i] = 0.0
+            elif sub == "small_diagonal":
+                A[i, i] = A[i, i] / 64.0
+        if sub == "saddle":
+            h = (n + 1) // 2
+            A[h:, h:] = 0.0
+        kind = "hermitian:" + sub
     if kind == "banded":
         # exact zeros outside a band, sub-diagonal entries often larger than the diagonal: interchanges create fill-in
         # beyond the band of the input
